@@ -38,7 +38,7 @@ from harness.common.shrink import ddmin
 from harness.props import c14_facts
 
 PROP = "C14"
-DRIVER_MODULES = ["PsutilModel.Model.C14Gen", "PsutilModel.Spec.C14"]
+DRIVER_MODULES = ["PsutilModel.Model.C14Gen", "PsutilModel.Spec.C14", "PsutilModel.Spec.C14Io"]
 NEEDS_EXT = True
 TRUSTED = [
     "C14 kernel formats (Spec/C14.lean): link texts of /proc/pid/fd (path, path+' (deleted)', socket:[i], pipe:[i], anon_inode:x), fdinfo = 'pos:\\t%lli\\nflags:\\t0%o\\n'+further lines, /proc/pid/io = 'name: %llu' lines; O_ACCMODE = flags mod 4, O_APPEND = 0o2000 (asm-generic ABI)",
@@ -314,6 +314,11 @@ class Impl:
     def observe(self, proc, what, mode):
         """one front-end call → observable; every exception is an observable"""
         ps = self.ps
+        if what == "pair":
+            # num_fds(), open_files(), num_fds() on the SAME object and the same world
+            return {"kind": "pair", "num_fds": self.observe(proc, "num_fds", "plain"),
+                    "open_files": self.observe(proc, "open_files", "plain"),
+                    "num_fds_after": self.observe(proc, "num_fds", "plain")}
         try:
             if mode == "as_dict":
                 r = proc.as_dict(attrs=[what], ad_value=AD_VALUE)[what]
@@ -595,7 +600,32 @@ def eval_table(impl, case, out):
         model_num, spec_num = out["model"]["num_fds"], out["spec"]["num_fds"]
     model = {"open_files": adapt(mode, out["model"]["open_files"]), "num_fds": adapt(mode, model_num)}
     spec = {"open_files": adapt(mode, out["spec"]["open_files"]), "num_fds": adapt(mode, spec_num)} if out["wf"] else None
+    if case.get("pair"):
+        # goal: num_fds() against open_files() on ONE object / ONE world (theorem C14_num_fds_vs_open_files)
+        obs["pair"] = impl.call("pair", lambda: impl.build_proc(entries, zombie=zombie), mode=mode,
+                                listdir_err=errno.EACCES if case.get("dir_denied") else None)
+        for side, src in ((model, out["model"]), (spec, out["spec"])):
+            if side is not None:
+                side["pair"] = {"kind": "pair", "num_fds": src["num_fds"], "open_files": src["open_files"],
+                                "num_fds_after": src["num_fds"]}
     return obs, model, spec
+
+
+def pair_inconsistent(case, pr):
+    """the statement's own consistency between the two answers of one object: every reported descriptor
+    was counted, the list is never longer than the count, the count does not move"""
+    a, b, c = pr.get("num_fds"), pr.get("open_files"), pr.get("num_fds_after")
+    if not (a and b and c and a["kind"] == b["kind"] == c["kind"] == "ok"):
+        return None
+    names = {d["n"] for d in case["fds"]}
+    fds = [x["fd"] for x in b["value"]]
+    if a["value"] != c["value"]:
+        return "num_fds() moved from %r to %r on an unchanged table" % (a["value"], c["value"])
+    if len(fds) > a["value"]:
+        return "open_files() has %d entries, num_fds() counted %d" % (len(fds), a["value"])
+    if not set(fds) <= names or len(set(fds)) != len(fds):
+        return "open_files() reports descriptors %r, the table holds %r" % (sorted(fds), sorted(names))
+    return False
 
 
 def eval_raw(impl, case, line):
@@ -644,6 +674,16 @@ def run_tables(ctx, impl, cases, res, tag="table"):
             res.count("table:not-wf(model only)")
         res.case(("table", c), nontrivial=bool(feats - {"empty"}),
                  sample={"family": c.get("family", tag), "n_fds": len(c["fds"]), "impl": _short(im)} if len(c["fds"]) in (3, 4) else None)
+        if c.get("pair"):
+            why = pair_inconsistent(c, im.get("pair", {}))
+            res.count("pair:" + ("both-answered" if why is not None else "one-raised"))
+            if why is False:
+                nof = len(im["pair"]["open_files"]["value"])
+                res.count("pair:unlisted-descriptors", im["pair"]["num_fds"]["value"] - nof)
+                res.count("pair:listed-descriptors", nof)
+            elif why:
+                res.disagree("spec", {"family": "table", "case": c}, im, mo, sp, note=why)
+                continue
         judge(res, {"family": "table", "case": c}, im, mo, sp)
     return len(lines)
 
@@ -684,14 +724,20 @@ def run_io_items(ctx, impl, cases, res):
         res.count("mode:" + mode)
         if c.get("zombie"):
             res.count("io:zombie")
-        sp = o["spec"] if (o["wf"] and o["distinct"]) else None
+        # EVERY content has a promised answer (Spec.expectedIoContent, theorem C14_io_any_content); on the
+        # round-1 class (well-formed items, distinct names) the item-level spec must say the same
+        sp = o["spec_content"]
+        if o["wf"] and o["distinct"]:
+            res.count("io:in-item-class")
+            if o["spec"] != sp:
+                raise RuntimeError("the two io specifications differ on %r: %r vs %r" % (c, o["spec"], sp))
         kinds = {i["t"] for i in c["items"]}
         for k in kinds:
             res.count("io:has-" + k)
         res.count("io:" + (o["model"]["exc"] if o["model"]["kind"] == "exc" else "ok"))
         res.count("family:io:" + c.get("family", "items"))
-        if sp is None:
-            res.count("io:not-wf(model only)")
+        if not (o["wf"] and o["distinct"]):
+            res.count("io:outside-item-class(content spec)")
         res.case(("io", c), nontrivial=bool(kinds - {"kv"}) or o["model"]["kind"] == "exc",
                  sample={"family": c.get("family"), "file": bytes.fromhex(o["render"]).decode("latin-1")[:200], "impl": im} if len(c["items"]) == 9 else None)
         judge(res, {"family": "io_items", "case": c}, im, o["model"], sp)
@@ -714,6 +760,11 @@ def run_io_raws(ctx, impl, cases, res):
         res.count("mode:" + mode)
         res.count("io_raw:" + (o["model"]["exc"] if o["model"]["kind"] == "exc" else "ok"))
         res.count("family:io_raw:" + c.get("family", "raw"))
+        if c.get("shape") is not None:
+            res.count("io_shape:variant-" + c["variant"])
+            res.count("io_shape:tokens-%d" % len(c["shape"]))
+            res.count("io_shape:" + (o["model"]["exc"] if o["model"]["kind"] == "exc" else
+                                     ("changes-the-answer" if o["model"]["value"] != IO_SHAPE_BASE[c["variant"]] else "ignored")))
         res.case(("io_raw", c), nontrivial=True)
         sp = o.get("spec") if not c["file"].get("read_err") else None
         if sp is not None:
@@ -931,6 +982,7 @@ def gen_table(rng, family):
     return case
 
 
+PAIR_FAMILIES = ["mixed", "regular_only", "closing", "all_closing", "deleted", "small", "ambiguous", "empty", "denied", "exits"]
 TABLE_FAMILIES = ["mixed", "regular_only", "closing", "all_closing", "deleted", "dies", "gone", "small",
                   "ambiguous", "empty", "mixed", "closing", "denied", "zombie", "denied", "exits"]
 
@@ -1079,13 +1131,75 @@ def gen_io(rng, family):
         for _ in range(rng.randrange(1, 6)):
             items.insert(rng.randrange(len(items) + 1), rng.choice([
                 {"t": "blank", "ws": b"".hex()}, {"t": "junk", "s": b"junk line".hex()}, kv(b"other", gen_val(rng))]))
+    elif family == "signed":            # int() reads a sign and single underscores: the value is a number
+        for _ in range(rng.randrange(1, 4)):
+            k = rng.choice(IO_KEYS + [b"other"])
+            v = rng.choice([b"+", b"-", b""]) + rng.choice([b"7", b"1_000", b"0", b"00", b"18446744073709551615", b"1_2_3"])
+            bad = rng.choice([b"", b"", b"", b"_", b"+", b" 1", b"__1"])
+            items.insert(rng.randrange(len(items) + 1), {"t": "junk", "s": (k + b": " + v + bad).hex()})
+    elif family == "odd_key":           # blanks around the name, other spellings: OTHER names
+        for _ in range(rng.randrange(1, 4)):
+            k = rng.choice(IO_KEYS)
+            k = rng.choice([k + b" ", b" " + k, k + b"\t", k.upper(), k + b":", b":" + k, k[:-1], k + b"\x00"])
+            items.insert(rng.randrange(len(items) + 1), {"t": "junk", "s": (k + b": " + b"%d" % gen_val(rng)).hex()})
+        if rng.random() < 0.4:
+            items = [i for i in items if not (i["t"] == "kv" and i["name"] == b"syscr".hex())]
     c = {"family": family, "items": items, "mode": pick_mode(rng)}
     if rng.random() < 0.12:
         c["zombie"] = True          # the kernel still serves a zombie's io file
     return c
 
 
-IO_FAMILIES = ["kernel", "shuffled", "blank", "junk", "double_sep", "unknown", "missing", "empty", "duplicate", "badval", "mixed"]
+# ---- exhaustive line shapes over a tiny token alphabet ("tolerating blank or malformed extra lines")
+IO_TOKENS = [b"syscr", b"xtra", b": ", b":", b" ", b"9", b"-", b"+", b"_"]
+IO_KERNEL_LINES = [b"rchar: 1", b"wchar: 2", b"syscr: 3", b"syscw: 4", b"read_bytes: 5", b"write_bytes: 6",
+                   b"cancelled_write_bytes: 7"]
+_NAMES = ["read_count", "write_count", "read_bytes", "write_bytes", "read_chars", "write_chars"]
+
+
+def _base(vals):
+    return [[n.encode().hex(), v] for n, v in zip(_NAMES, vals)]
+
+
+# the answer of the surrounding file without the inserted line
+IO_SHAPE_BASE = {"after": _base([3, 4, 5, 6, 1, 2]), "before": _base([3, 4, 5, 6, 1, 2]), "instead": "(fails: no syscr line)"}
+
+
+def io_shape_case(tokens, variant, mode="plain"):
+    """one line made of `tokens`: appended to the kernel's seven lines (`after`: a duplicate key wins),
+    put in front of them (`before`: the kernel's line wins), or taking the place of the kernel's own
+    `syscr` line (`instead`: only an exact `syscr: NUMBER` line keeps the call from failing)"""
+    x = b"".join(tokens)
+    if variant == "after":
+        lines = IO_KERNEL_LINES + [x]
+    elif variant == "before":
+        lines = [x] + IO_KERNEL_LINES
+    else:
+        lines = [x] + [l for l in IO_KERNEL_LINES if not l.startswith(b"syscr")]
+    return {"family": "io_shape", "variant": variant, "shape": [t.decode("latin-1") for t in tokens], "mode": mode,
+            "file": {"ok": b"".join(l + b"\n" for l in lines).hex()}, "alive": True}
+
+
+IO_TOKENS_CORE = [b"syscr", b": ", b" ", b"9", b"-", b"+", b"_"]
+
+
+def io_shape_sweep(maxlen, variants=("after", "before", "instead"), alphabet=None, minlen=1):
+    import itertools
+    out = []
+    for n in range(minlen, maxlen + 1):
+        for toks in itertools.product(alphabet or IO_TOKENS, repeat=n):
+            for v in variants:
+                out.append(io_shape_case(list(toks), v))
+    return out
+
+
+def gen_io_shape(rng, n):
+    return io_shape_case([rng.choice(IO_TOKENS + [b"\t", b"syscw", b"0", b"\n", b"\r", b"\x00", b"\xff"]) for _ in range(n)],
+                         rng.choice(["after", "before", "instead"]), mode=pick_mode(rng))
+
+
+IO_FAMILIES = ["kernel", "shuffled", "blank", "junk", "double_sep", "unknown", "missing", "empty", "duplicate", "badval", "mixed",
+               "signed", "odd_key", "duplicate"]
 
 IO_RAW = [
     ("missing-file-alive", {"file": {"err": "ENOENT"}, "alive": True}),
@@ -1233,7 +1347,10 @@ def correspond(ctx, res):
                     "target stat / fdinfo / fd directory) x process states (running, zombie, exiting, dying, gone)), each "
                     "run in a call mode (plain, oneshot, warm oneshot after a world change, as_dict, process_iter object, "
                     "cached process_iter object, second call) and "
-                    "/proc/pid/io files from clause-directed families (PRNG from VERIF_SEED), a malformed stream "
+                    "/proc/pid/io files from clause-directed families (PRNG from VERIF_SEED; every content has a promised "
+                    "answer), every io line of up to 3 (quick) / 4 (thorough) tokens of {syscr, xtra, ': ', ':', ' ', 9, -, +, _} "
+                    "inserted after / before / instead of the kernel's own line, num_fds()/open_files()/num_fds() on one object "
+                    "and one table (pair), a malformed stream "
                     "(raw fd entries / fdinfo texts / io files), plus exhaustive sweeps of the flag word; "
                     "non-trivial = a table that is non-empty, an io file with a non-counter line or an error, "
                     "every flag word; distinct = distinct canonical inputs")
@@ -1256,6 +1373,16 @@ def correspond(ctx, res):
         n = ctx.n(260, 12000)
         for i in range(n):
             tables.append(gen_table(ctx.rng, TABLE_FAMILIES[i % len(TABLE_FAMILIES)]))
+        # ---- num_fds() against open_files() on one object and one world (live process)
+        for c in base_corpus + kp[::7]:
+            if not c.get("gone_before") and c.get("dies_at") is None:
+                for m in ("plain", "oneshot"):
+                    tables.append(dict(c, mode=m, pair=True, family="pair:" + c["family"]))
+        for i in range(ctx.n(120, 4000)):
+            c = gen_table(ctx.rng, PAIR_FAMILIES[i % len(PAIR_FAMILIES)])
+            c.update(gone_before=False, dies_at=None, pair=True, mode=ctx.rng.choice(["plain", "oneshot"]),
+                     family="pair:" + c["family"])
+            tables.append(c)
         CH = 400
         for a in range(0, len(tables), CH):
             lines += run_tables(ctx, impl, tables[a:a + CH], res)
@@ -1269,14 +1396,29 @@ def correspond(ctx, res):
         for a in range(0, len(ios), 2000):
             lines += run_io_items(ctx, impl, ios[a:a + 2000], res)
         lines += run_io_raws(ctx, impl, [dict(c, family=f, mode=m) for m in MODES for f, c in IO_RAW], res)
+        # ---- exhaustive: every line made of up to N tokens of IO_TOKENS, inserted after / before / instead of
+        # the kernel's own line; then longer lines over a wider alphabet, sampled
+        nshape = 3 if ctx.tier == "quick" else 4
+        shapes = io_shape_sweep(nshape)
+        res.extra["io_shape_lines"] = len(shapes) // 3
+        # one token more over the core alphabet {syscr, ': ', ' ', 9, -, +, _} (`syscr: -9`, `syscr : 9`, `syscr: 9_`, …):
+        # all of them, appended to the kernel's file (where a counter line for syscr changes the answer)
+        shapes += io_shape_sweep(nshape + 1, variants=("after",), alphabet=IO_TOKENS_CORE, minlen=nshape + 1)
+        res.extra["io_shape_lines_core_after_only"] = len(IO_TOKENS_CORE) ** (nshape + 1)
+        shapes += [gen_io_shape(ctx.rng, ctx.rng.randrange(nshape + 1, 9)) for _ in range(ctx.n(1200, 15000))]
+        for a in range(0, len(shapes), 3000):
+            lines += run_io_raws(ctx, impl, shapes[a:a + 3000], res)
         res.exhaustive = ("all 4096 combinations of the twelve low flag bits (access mode x O_CREAT/O_EXCL/O_NOCTTY/O_TRUNC/"
                           "O_APPEND/O_NONBLOCK and the unnamed low bits) through file_flags_to_mode AND end to end through "
                           "open_files() on 64 tables of 64 regular descriptors; every scripted target kind (regular file, directory, FIFO, "
                           "character device, dangling) x every path prefix (/dev/, /dev/shm/, /dev/pts/, /proc/, /sys/, /run/, /, the "
                           "temp root, device-looking names) x unlinked marker, one descriptor per table and all together; every call mode (%s) x every method on the "
                           "clause-directed corpus (%d tables incl. the permission / zombie / file-kind ones, %d io files, %d raw io "
-                          "cases); tables, io files and the malformed stream are samples, each in a mode drawn at random"
-                          % (", ".join(MODES), len(base_corpus), len(corpus_io()), len(IO_RAW)))
+                          "cases); every /proc/pid/io line made of at most %d tokens of the alphabet {syscr, xtra, ': ', ':', ' ', "
+                          "9, -, +, _} (%d lines: duplicate keys, unknown names, names with blanks, signed / underscored / "
+                          "malformed values, several separators) x {appended to, put before, replacing the kernel's own syscr "
+                          "line}, plus every line of %d tokens of {syscr, ': ', ' ', 9, -, +, _} appended to the kernel's file; tables, io files, longer io lines and the malformed stream are samples, each in a mode drawn at random"
+                          % (", ".join(MODES), len(base_corpus), len(corpus_io()), len(IO_RAW), nshape, len(io_shape_sweep(nshape)) // 3, nshape + 1))
         res.extra["driver_lines"] = lines
     finally:
         impl.close()
